@@ -188,6 +188,10 @@ def main():
     with ProcessPoolExecutor(max_workers=jobs) as ex:
         for k, r in enumerate(ex.map(judge, tasks, chunksize=4)):
             results.append(r)
+            if not r[4] and not r[5]:
+                print(f"SURVIVOR {r[0]}:{r[1]} [{r[2]}] {r[3]}", flush=True)
+            elif not r[4]:
+                print(f"ERRONLY {r[0]}:{r[1]} [{r[2]}] {r[3]} -> {r[5]}", flush=True)
             if (k + 1) % 100 == 0:
                 surv = sum(1 for x in results if not x[4] and not x[5])
                 print(f"  {k + 1}/{len(tasks)} judged, {surv} survivor(s)", flush=True)
